@@ -109,6 +109,13 @@ fn mutate(c: &mut Content, m: &[&str]) {
                 c.free.push(x);
             }
         }
+        "freegenmax" => {
+            // a freed identifier whose generation is the largest one: reusing the slot must wrap around
+            if !c.free.is_empty() {
+                let k = n(1) as usize % c.free.len();
+                c.free[k].1 = u64::MAX;
+            }
+        }
         "freelive" => {
             // list a stored identifier as free as well
             if na > 0 {
@@ -933,7 +940,8 @@ fn apply(st: &mut State, line: &str, out: &mut String) {
                 "de" => Kind::De,
                 _ => Kind::Dbg,
             };
-            ledger::arm(kind, v64(2));
+            // `fault kind k res`: the k-th callback of a RESOURCE (numbered from 100)
+            ledger::arm_from(kind, v64(2), if t.get(3).copied() == Some("res") { 100 } else { 0 });
         }
         "dbg" => {
             if let Some(w) = st.worlds[u(1)].as_ref() {
